@@ -287,6 +287,9 @@ struct dump_page {
 #define PFN_IDX3_SIZE	((uint32_t)1 << PFN_IDX3_BITS)
 #define PFN_IDX3_MASK	(PFN_IDX3_SIZE - 1)
 
+/* PFNs above this limit cannot be stored in the index. */
+#define PFN_IDX_MAX	((kdump_pfn_t)UINT32_MAX)
+
 #define pfn_idx1(pfn) \
 	((uint32_t)(pfn) >> (PFN_IDX3_BITS + PFN_IDX2_BITS))
 #define pfn_idx2(pfn) \
@@ -522,6 +525,9 @@ lookup_pfn_block(kdump_ctx_t *ctx, kdump_pfn_t pfn, unsigned short tolerance)
 	struct pfn_block **l2, *block;
 	unsigned idx;
 
+	if (pfn > PFN_IDX_MAX)
+		return NULL;
+
 	idx = pfn_idx1(pfn);
 	if (idx >= lkcdp->l1_size)
 		return NULL;
@@ -633,6 +639,14 @@ search_page_desc(kdump_ctx_t *ctx, kdump_pfn_t pfn,
 		}
 
 		curpfn = dp->dp_address >> get_page_shift(ctx);
+		if (curpfn > PFN_IDX_MAX) {
+			if (block)
+				realloc_pfn_offs(block, block->n);
+			return set_error(ctx, KDUMP_ERR_NOTIMPL,
+					 "PFN 0x%llx at %llu is too big",
+					 (unsigned long long) curpfn,
+					 (unsigned long long) off);
+		}
 		if (!block)
 			block = lookup_pfn_block(ctx, curpfn, MAX_PFN_GAP);
 		else if (blocktbl != (curpfn & ~PFN_IDX3_MASK) ||
